@@ -51,4 +51,4 @@ package util
 //@   assume psum0: psum(d, 0) == 0
 //@   elem d[i] as v: psum(d, i+1) == psum(d, i) + len(v)
 //@   loop[0] invariant sum_ok: sum == psum(d, rangeindex+1) && psum(d, rangeindex+1) <= (rangeindex+1) * 281474976710656
-//@   ensures size [C01,C05,C15]: result == vsize(sumlen(d)) + sumlen(d)
+//@   ensures size [C01,C05,C14,C15]: result == vsize(sumlen(d)) + sumlen(d)
